@@ -1375,6 +1375,8 @@ class Models(object):
         if isinstance(recv, (set, frozenset)):
             return self.set_method(recv, name, args, kwargs)
         if isinstance(recv, ListSet):
+            if name in ("add", "update", "discard", "remove", "clear", "pop"):
+                E.path.effects.append(("set_write", recv, name))
             if name == "add":
                 self.ls_add(recv, args[0])
                 return None
@@ -1586,6 +1588,8 @@ class Models(object):
 
     def set_method(self, s, name, args, kwargs):
         E = self.E
+        if name in ("add", "update", "discard", "remove", "clear", "pop", "difference_update", "intersection_update"):
+            E.path.effects.append(("set_write", s, name))
         if name == "add":
             x = sym.concrete(args[0])
             if isinstance(x, SV):
